@@ -109,14 +109,46 @@ fn alternatives(k: Kind) -> Vec<Ans> {
 
 /// every script within `max_dev` deviations of the policy's script (usize::MAX: every script over
 /// the alternatives), each visited exactly once; `judge` sees every execution
+/// `max_len` bounds the request positions at which answers are varied: a subject with a rejection loop
+/// asks again after a rejected answer, so its script tree is infinite; positions beyond the length
+/// of the base execution plus two further requests keep the base answer (rejection bound 2).
+struct Limits {
+    max_dev: usize,
+    max_len: std::sync::atomic::AtomicUsize,
+    runs: std::sync::atomic::AtomicU64,
+    max_runs: u64,
+}
+impl Limits {
+    fn new(max_dev: usize) -> Self {
+        Limits { max_dev, max_len: std::sync::atomic::AtomicUsize::new(usize::MAX), runs: std::sync::atomic::AtomicU64::new(0), max_runs: 6_000_000 }
+    }
+}
+
 fn explore<T: Send>(prefix: Vec<Ans>, devs: usize, max_dev: usize, policy: &Policy, budget: usize, f: &(dyn Fn() -> T + Sync), judge: &(dyn Fn(&Exec<T>, usize) + Sync)) {
+    let lim = Limits::new(max_dev);
+    explore_in(prefix, devs, &lim, policy, budget, f, judge);
+    if lim.runs.load(std::sync::atomic::Ordering::Relaxed) >= lim.max_runs {
+        CAPPED.store(true, std::sync::atomic::Ordering::Relaxed);
+    }
+}
+static CAPPED: std::sync::atomic::AtomicBool = std::sync::atomic::AtomicBool::new(false);
+
+fn explore_in<T: Send>(prefix: Vec<Ans>, devs: usize, lim: &Limits, policy: &Policy, budget: usize, f: &(dyn Fn() -> T + Sync), judge: &(dyn Fn(&Exec<T>, usize) + Sync)) {
+    use std::sync::atomic::Ordering::Relaxed;
+    if lim.runs.fetch_add(1, Relaxed) >= lim.max_runs {
+        return;
+    }
+    let max_dev = lim.max_dev;
     let x = run_with(&prefix, policy, budget, f);
     judge(&x, devs);
+    if prefix.is_empty() {
+        lim.max_len.store(x.used.len() + 2, Relaxed);
+    }
     if devs >= max_dev || x.livelock {
         return;
     }
     let mut kids: Vec<Vec<Ans>> = Vec::new();
-    for i in prefix.len()..x.used.len().min(x.kinds.len()) {
+    for i in prefix.len()..x.used.len().min(x.kinds.len()).min(lim.max_len.load(Relaxed)) {
         for alt in alternatives(x.kinds[i]) {
             if alt != x.used[i] {
                 let mut c = x.used[..i].to_vec();
@@ -127,10 +159,10 @@ fn explore<T: Send>(prefix: Vec<Ans>, devs: usize, max_dev: usize, policy: &Poli
     }
     drop(x);
     if kids.len() >= 8 && prefix.len() < 6 {
-        kids.into_par_iter().for_each(|c| explore(c, devs + 1, max_dev, policy, budget, f, judge));
+        kids.into_par_iter().for_each(|c| explore_in(c, devs + 1, lim, policy, budget, f, judge));
     } else {
         for c in kids {
-            explore(c, devs + 1, max_dev, policy, budget, f, judge);
+            explore_in(c, devs + 1, lim, policy, budget, f, judge);
         }
     }
 }
@@ -584,6 +616,9 @@ pub fn run(run: &Run) {
         }
     }
     run.extra("sampled_real_seed_shuffles", serde_json::json!(sampled));
+    if CAPPED.load(std::sync::atomic::Ordering::Relaxed) {
+        run.cap("an exploration reached 6e6 executions and was cut there (the subject's request tree is larger than the identity-selection one)");
+    }
     for r in ["bootstrap-ok", "shuffle-ok", "shuffle: order changed", "shuffle_two-ok", "jackknife-ok", "position-frequencies-ok"] {
         run.require_regime(r);
     }
